@@ -61,6 +61,13 @@ def base_cases(rng, tier):
     old.append(dict(api="old", style="kitty", ident="kitty", frames=2, rw=2, rh=2, h_align=None,
                     pad_width=0, v_align=None, pad_height=-2, repeat=1, cached=False, cols=8, rows=6,
                     tty=True, r0=0, method="lines", cell=[3, 5], dynamic="AUTO", seek=1))
+    # kitty payloads spanning several chunks (compress=0, big cells): the interrupted-draw
+    # handler must both terminate the open command and close the chunked transfer
+    for frames in (1, 2):
+        old.append(dict(api="old", style="kitty", ident="kitty", frames=frames, rw=3, rh=2,
+                        h_align="<", pad_width=3, v_align="^", pad_height=2, repeat=1, cached=False,
+                        cols=8, rows=6, tty=True, r0=0, method="lines", cell=[16, 33],
+                        style_args={"compress": 0}))
     new.append(dict(api="new", rw=2, rh=1, frames=3, loops=1, cache=False, seek=2,
                     pad={"kind": "exact", "l": 0, "t": 0, "r": 0, "b": 0},
                     cols=7, rows=5, tty=True, r0=0, animate=True, hide_cursor=True, echo_input=False))
